@@ -705,6 +705,9 @@ def r1_parallel(run, w, writes, analysis):
         r = H.reach_assuming(cs.cfg, {n.id}, differ)
         if any(cs.cfg.nodes[x].kind == "raise_stmt" for x in r) and cs.cfg.exit.id not in r:
           ok = True
+  if not ok and any(H.local_callee(w, cs, c) is not None for (n, c, nm) in cs.calls()):
+    raise AnalysisError("check_sanity: the length comparison is not in the function itself and "
+                        "a helper it calls could not be followed")
   run.ob(R1, cs.qualname, "if len(self.stored) != len(self.direct): raise",
          "a length mismatch is an error, not a silently misaligned reply", ok, fi=cs.fi,
          nontrivial=False)
@@ -718,6 +721,11 @@ def r2_owners(run, w, writes, analysis, cand):
   for q, (fl, ex) in analysis.items():
     for e in fl.events.values():
       (sw if e[2] == "stored" else dw).add(q)
+  # when an enumerated writer is gone (renamed, inlined into its caller, split) the table of
+  # owners no longer describes the code: a new writer is then no evidence of a bypass
+  missing = sorted(set(OWNERS) - sw)
+  if missing:
+    raise AnalysisError("enumerated writer(s) of stored no longer write it: %s" % missing)
   for q, ws in sorted(writes.items()):
     fn = w.fn(q)
     for which in ("stored", "direct"):
@@ -840,9 +848,14 @@ def r3_indirection(run, w, analysis):
   # writers of the level
   ua = w.repo.module("useractions")
   c0 = ua.assigns.get("DIRECT_ACTION")
-  init = w.fn("useractions.UserActions.__init__")
+  init = H.inlined_fn(w, "useractions.UserActions.__init__")
   starts = [s for s in ast.walk(init.node) if isinstance(s, ast.Assign) and
             text(s.targets[0]) == "self._indirection_level"]
+  if not starts and H.mentions_in_reach(
+      w, init, lambda x: isinstance(x, ast.Attribute) and x.attr == "_indirection_level" and
+      isinstance(x.ctx, ast.Store), depth=2):
+    raise AnalysisError("UserActions.__init__: the indirection level is initialised inside a "
+                        "helper that could not be read in place")
   ok = len(starts) == 1 and text(starts[0].value) == "DIRECT_ACTION" and \
       isinstance(c0, ast.Constant) and c0.value == 0
   run.ob(R3, init.qualname, "self._indirection_level = DIRECT_ACTION (= 0)",
@@ -853,8 +866,10 @@ def r3_indirection(run, w, analysis):
     for x in ast.walk(fi.node):
       if isinstance(x, ast.Attribute) and x.attr == "_indirection_level" and \
           isinstance(x.ctx, (ast.Store, ast.Del)):
+        part = H.is_private_part(w, fi)
         run.ob(R3, fi.qualname, "writes _indirection_level", "the indirection level is written "
-               "only by the constructor and by indirect_actions", fi.qualname in allowed, fi=fi,
+               "only by the constructor and by indirect_actions (or a private part of them)",
+               fi.qualname in allowed or (part[0] and part[1] in allowed), fi=fi,
                node=x, nontrivial=False)
   # the gateway's flag
   gw = w.fn("useractions.UserActions._do_doc_action")
